@@ -22,6 +22,7 @@ def sunEventsF : Handler := fun fn a =>
       let jdes := a[2]!.fl
       let lons := a[3]!.fl
       some <| out (get_equinox_solstice mkEpoch (sunLonOfTable jdes lons) (jdes.length + 1) a[0]!.i a[1]!.s)
+  | "get_equinox_solstice_year" => some <| out (get_equinox_solstice_year a[0]!.i a[1]!.s)
   | "eot_l0" => some <| out (eot_l0 a[0]!.f)
   | "equation_of_time" => some <| out (equation_of_time a[0]!.f a[1]!.f a[2]!.f a[3]!.f)
   | "rise_limit" => some <| out rise_limit
